@@ -143,6 +143,8 @@ def _xy(spec):
     n = spec["n"]
     lo, hi = spec["xrange"]
     x = np.sort(lo + (hi - lo) * (np.arange(n) + rng.uniform(0.1, 0.9, n)) / n)
+    if spec.get("int_x"):
+        x = np.arange(1, n + 1, dtype=np.int64)  # support points that are whole numbers in an integer-typed array
     return rng, x
 
 
@@ -467,6 +469,8 @@ def anchors():
                         bounds = {"none": None, "allNone": [[None, None]] * npar, "lower": [[-5.0, None]] * npar}[bk]
                         out.append(_single(f"constraint/{act}/{form}", shape, true, 100 + j, n, xr, 0.01, bounds=bounds,
                                            constraints={"form": form, "items": [{"coef": coef, "rhs": rhs}]}, as_list=bool(j % 2)))
+                        if j % 4 == 0 and n <= 12:
+                            out.append(dict(out[-1], int_x=True))
     # predefined shapes with their predefined bounds
     b3 = [[0, None], [0, None], [None, None]]
     out.append(_single("predefined/power3", "power3", [1.5, 0.8, 1.3], 21, 12, (0.5, 8), bounds=b3))
